@@ -1,9 +1,12 @@
 /-
 `HollowPlanar3DCode`, every size: commutation of vertex and face operators (the overlap is the one
 of `Planar3DCode`: a location shared by a vertex and a face outside the hole is an edge of that face,
-hence outside the hole), the logical operators (they avoid the hole: `y = z = 0`, resp. `x = 1`),
-distinctness / disjointness of the coordinate lists, the uniform description of `get_stabilizer`,
-and the clauses of `Lattice.CommPair`.
+hence outside the hole), the logical X line and the end plane `x = 1` (they avoid the hole:
+`y = z = 0`, resp. `x = 1`; the end plane was the listed logical Z before the repair of
+`get_logicals_z` and is the reference plane of the parity argument), distinctness / disjointness of
+the coordinate lists, the uniform description of `get_stabilizer`, and the clauses of
+`Lattice.CommPair` that do not involve the logical Z.  The logical Z of the current code (the
+cross-section through the cavity) is treated in `LatHollowPlanar3DCodeLogZ.lean`.
 -/
 import PanqecVerif.Proofs.LatHollowPlanar3DCodeStab
 
@@ -59,7 +62,7 @@ theorem ov_vertex_faceXZ {Lx Ly Lz : Nat} {x y z a b c : Int} (hv : isVertex Lx 
 theorem logX_eq (Lx Ly Lz : Nat) : logX Lx Ly Lz = [uop (lxK Lx) Pauli.X] :=
   Planar3DCode.logX_eq Lx Ly Lz
 
-theorem logZ_eq (Lx Ly Lz : Nat) : logZ Lx Ly Lz = [uop (lzK Ly Lz) Pauli.Z] :=
+theorem oldLogZ_eq (Lx Ly Lz : Nat) : oldLogZ Lx Ly Lz = [uop (lzK Ly Lz) Pauli.Z] :=
   Planar3DCode.logZ_eq Lx Ly Lz
 
 theorem lxK_notHole {Lx Ly Lz : Nat} : ∀ q ∈ lxK Lx, notHoleC Lx Ly Lz q = true := by
@@ -128,16 +131,6 @@ theorem getStab_form {Lx Ly Lz : Nat} (hLx : 1 ≤ Lx) {s : Coord} (hs : s ∈ s
       vertexKeys_ne_nil hv hn, by decide⟩
   · exact ⟨_, _, e, hnd, hsub, hne, by decide⟩
 
-/-- every logical operator is a one-letter operator on a list of distinct qubits -/
-theorem logical_form {Lx Ly Lz : Nat} (hLx : 1 ≤ Lx) (hLy : 1 ≤ Ly) (hLz : 1 ≤ Lz) {a : Op}
-    (ha : a ∈ logX Lx Ly Lz ++ logZ Lx Ly Lz) :
-    ∃ ks p, a = uop ks p ∧ ks.Nodup ∧ (∀ q ∈ ks, q ∈ qubits Lx Ly Lz) ∧ p ≠ Pauli.I := by
-  rw [logX_eq, logZ_eq] at ha
-  simp only [List.cons_append, List.nil_append, List.mem_cons, List.not_mem_nil, or_false] at ha
-  rcases ha with rfl | rfl
-  · exact ⟨_, _, rfl, lxK_nodup _, lxK_sub hLy hLz, by decide⟩
-  · exact ⟨_, _, rfl, lzK_nodup _ _, lzK_sub hLx, by decide⟩
-
 /-! ### coordinates -/
 
 theorem qubits_nodup (Lx Ly Lz : Nat) : (qubits Lx Ly Lz).Nodup := by
@@ -179,28 +172,30 @@ theorem logX_comm {a : Op} (ha : a ∈ logX Lx Ly Lz) {s : Coord} (hs : s ∈ st
     exact ov_vertex_lxK hLy hLz hv
   · exact opCommute_uop_same _ _ _
 
-theorem logZ_comm {a : Op} (ha : a ∈ logZ Lx Ly Lz) {s : Coord} (hs : s ∈ stabs Lx Ly Lz) :
-    opCommute a (getStab Lx Ly Lz s) = true := by
-  rw [logZ_eq] at ha
-  simp only [List.mem_cons, List.not_mem_nil, or_false] at ha
-  subst ha
+/-- the end plane `x = 1` (the logical Z before the repair) commutes with every generator -/
+theorem lzK_comm {s : Coord} (hs : s ∈ stabs Lx Ly Lz) :
+    opCommute (uop (lzK Ly Lz) Pauli.Z) (getStab Lx Ly Lz s) = true := by
   rcases getStab_kind hLx hs with ⟨x, y, z, hv, _, e⟩ | ⟨ks, e, hn, _, _, _, h0⟩ <;> rw [e]
   · exact opCommute_uop_same _ _ _
   · refine opCommute_uop_of_even _ _ ?_
     rw [ov_comm (lzK_nodup _ _) hn]; exact h0
 
-theorem pairing (i j : Nat) (hi : i < 1) (hj : j < 1) :
-    opAntiCount ((logX Lx Ly Lz).getD i []) ((logZ Lx Ly Lz).getD j []) % 2 =
+theorem oldPairing (i j : Nat) (hi : i < 1) (hj : j < 1) :
+    opAntiCount ((logX Lx Ly Lz).getD i []) ((oldLogZ Lx Ly Lz).getD j []) % 2 =
       if i = j then 1 else 0 :=
   Planar3DCode.pairing hLx hLy hLz i j hi hj
+
+/-- the X line and the end plane `x = 1` anticommute -/
+theorem lxK_lzK_anti : opAntiCount (uop (lxK Lx) Pauli.X) (uop (lzK Ly Lz) Pauli.Z) % 2 = 1 := by
+  have h := oldPairing hLx hLy hLz 0 0 (by omega) (by omega)
+  rw [logX_eq, oldLogZ_eq] at h
+  simpa using h
 
 end
 
 theorem logXX {Lx Ly Lz : Nat} {a b : Op} (ha : a ∈ logX Lx Ly Lz) (hb : b ∈ logX Lx Ly Lz) :
     opCommute a b = true := Planar3DCode.logXX (Lx := Lx) (Ly := Ly) (Lz := Lz) ha hb
 
-theorem logZZ {Lx Ly Lz : Nat} {a b : Op} (ha : a ∈ logZ Lx Ly Lz) (hb : b ∈ logZ Lx Ly Lz) :
-    opCommute a b = true := Planar3DCode.logZZ (Lx := Lx) (Ly := Ly) (Lz := Lz) ha hb
 
 /-- `qubit_axis` on the three blocks of `get_qubit_coordinates` -/
 theorem qubitAxis_of_mem_qubits {Lx Ly Lz : Nat} {x y z : Int} (h : [x, y, z] ∈ qubits Lx Ly Lz) :
@@ -252,5 +247,12 @@ theorem lattice_logX (Lx Ly Lz : Nat) : (lattice Lx Ly Lz).logX = logX Lx Ly Lz 
   simp only [lattice]
 theorem lattice_logZ (Lx Ly Lz : Nat) : (lattice Lx Ly Lz).logZ = logZ Lx Ly Lz := by
   simp only [lattice]
+
+theorem oldLattice_qubits (Lx Ly Lz : Nat) : (oldLattice Lx Ly Lz).qubits = qubits Lx Ly Lz := by
+  simp only [oldLattice]
+theorem oldLattice_logX (Lx Ly Lz : Nat) : (oldLattice Lx Ly Lz).logX = logX Lx Ly Lz := by
+  simp only [oldLattice]
+theorem oldLattice_logZ (Lx Ly Lz : Nat) : (oldLattice Lx Ly Lz).logZ = oldLogZ Lx Ly Lz := by
+  simp only [oldLattice]
 
 end Panqec.HollowPlanar3DCode
